@@ -197,6 +197,24 @@ def run_set_patch_list(sx):
     return "set_patch:list"
 
 
+def run_patches_at_corner(sx):
+    """get_patches_at_corner(c): the patches of exactly the (up to three) sides that touch local corner c"""
+    box, lo, hi = _box(sx)
+    unset = sx.choice("unset", 7)           # one side (or none) is left without a patch
+    for k, side in enumerate(SIDES):
+        if k != unset:
+            box.set_patch(side, f"p_{side}")
+    c = sx.choice("corner", 8)
+    sx.reach("set_patch")
+    got = set(box.get_patches_at_corner(c))
+    bits = [(c in (1, 2, 5, 6)), (c in (2, 3, 6, 7)), (c >= 4)]       # corner c: x high?, y high?, z high? (blockMesh convention)
+    touching = [s_ for s_ in SIDES if SIDE_AXIS[s_][1] == int(bits[SIDE_AXIS[s_][0]])]
+    want = {f"p_{s_}" for s_ in touching if unset == 6 or s_ != SIDES[unset]}
+    sx.prove(got == want, f"get_patches_at_corner({c}) lists the patches of the sides {touching} that meet in that corner",
+             "C10:patches-at-corner", info={"got": sorted(got), "want": sorted(want)})
+    return "set_patch:corner"
+
+
 def run_set_patch(sx):
     box, lo, hi = _box(sx)
     s = sx.choice("side", 6)
@@ -378,6 +396,7 @@ def jobs(tier, seed):
         {"name": "shift", "fn": "run_shift"},
         {"name": "set_patch+get_face", "fn": "run_set_patch"},
         {"name": "set_patch with a list of sides", "fn": "run_set_patch_list"},
+        {"name": "get_patches_at_corner", "fn": "run_patches_at_corner"},
         {"name": "project_side", "fn": "run_project_side"},
         {"name": "project_side+edges", "fn": "run_project_side", "params": {"edges": True}},
         {"name": "project_side+points", "fn": "run_project_side", "params": {"points": True}},
